@@ -41,24 +41,29 @@ for _f in sorted(_g.glob(_o.path.join(_o.path.dirname(_o.path.abspath(__file__))
 # ---- GoLite: decision functions regenerated from the Go source on every run (harness/translators/golite) and proved
 # equal to the model's predicates for all arguments (coq/Check/GoLite*.v over coq/gen/GoLiteFuns.v).
 _GL_FILES = {"validate": "Check/GoLiteValidate.v", "submit": "Check/GoLiteSubmit.v", "throttle": "Check/GoLiteThrottle.v",
-             "lazy": "Check/GoLiteLazy.v", "da": "Check/GoLiteDA.v", "admit": "Check/GoLiteAdmit.v", "includer": "Check/GoLiteIncluder.v", "queue": "Check/GoLiteQueue.v"}
+             "lazy": "Check/GoLiteLazy.v", "da": "Check/GoLiteDA.v", "admit": "Check/GoLiteAdmit.v", "includer": "Check/GoLiteIncluder.v", "queue": "Check/GoLiteQueue.v", "loop-filter": "Check/GoLiteLoopFilter.v", "loop-waiting": "Check/GoLiteLoopWaiting.v", "loop-chunks": "Check/GoLiteLoopChunks.v"}
 _GOLITE = {
     "C01": [("validate", "execValidate = Types.validate, SignedHeader.ValidateBasic = Types.validate_basic, types.Validate = Types.validate_pair")],
     "C02": [("validate", "execValidate = Types.validate (the validation the syncer applies to every received block)"),
             ("admit", "handlePotentialHeader / handlePotentialData (block/retriever.go) with their effects — result, DA-included mark, includer signal, event sent to sync — = Admission.da_admit, for all genesis data, seen-sets, items and DA heights (blob decoding by class is assumed: C12)")],
-    "C03": [("admit", "handlePotentialHeader / handlePotentialData (block/retriever.go) with their effects — result, DA-included mark, includer signal, event sent to sync — = Admission.da_admit, for all genesis data, seen-sets, items and DA heights (blob decoding by class is assumed: C12)"),
+    "C03": [("loop-chunks", "the chunked Get loop of types.RetrieveWithHelpers, translated shallowly into a Gallina Fixpoint, = Get over the chunks of Admission.chunks (100 ids each, last one shorter, none empty, in order, stop at the first error), by induction for ALL id lists"),
+            ("admit", "handlePotentialHeader / handlePotentialData (block/retriever.go) with their effects — result, DA-included mark, includer signal, event sent to sync — = Admission.da_admit, for all genesis data, seen-sets, items and DA heights (blob decoding by class is assumed: C12)"),
             ("validate", "isUsingExpectedSingleSequencer = Admission.is_expected_sequencer, isValidSignedData = Admission.is_valid_signed_data, SignedHeader.ValidateBasic = Types.validate_basic, Header.ValidateBasic (what go-header calls) = the non-empty proposer address test")],
     "C04": [("validate", "execValidate = Types.validate")],
     "C05": [("validate", "execValidate = Types.validate")],
     "C06": [("submit", "Manager.exponentialBackoff = Submitter.exp_backoff, pendingBase.isEmpty = (store height =? watermark)"),
             ("da", "types.SubmitWithHelpers = Proxy.submit_helper (the status the retry loop of submitToDA switches on)")],
     "C07": [("includer", "IsDAIncluded, SetRollkitHeightToDAHeight, incrementDAIncludedHeight with their effects in order (Put rhb/h/h, Put rhb/h/d, SetFinal(d+1), Put d, publish by compare-and-swap; nothing after a failed step) = the per-block effects of Includer.incl_effs, for all store contents, marks and heights")],
-    "C08": [("throttle", "pendingBase.numPending = Throttle.sub64 (uint64 subtraction with wrap-around), pendingBase.isEmpty")],
-    "C09": [("admit", "handlePotentialHeader / handlePotentialData (block/retriever.go) with their effects — result, DA-included mark, includer signal, event sent to sync — = Admission.da_admit, for all genesis data, seen-sets, items and DA heights (blob decoding by class is assumed: C12)"),
+    "C08": [("loop-waiting", "the loop of PendingData.numWaitingData, translated shallowly, = Throttle.waiting_loop (the count and the heights stepped over, in order), by induction for ALL pending lists"),
+            ("throttle", "pendingBase.numPending = Throttle.sub64 (uint64 subtraction with wrap-around), pendingBase.isEmpty")],
+    "C09": [("loop-chunks", "the chunked Get loop of types.RetrieveWithHelpers, translated shallowly into a Gallina Fixpoint, = Get over the chunks of Admission.chunks (100 ids each, last one shorter, none empty, in order, stop at the first error), by induction for ALL id lists"),
+            ("admit", "handlePotentialHeader / handlePotentialData (block/retriever.go) with their effects — result, DA-included mark, includer signal, event sent to sync — = Admission.da_admit, for all genesis data, seen-sets, items and DA heights (blob decoding by class is assumed: C12)"),
             ("da", "types.RetrieveWithHelpers = Proxy.retrieve_helper on every path before the chunked Get loop (GetIDs error classes by message text, nil / empty id list)")],
     "C10": [("queue", "sequencers/single/queue.go AddBatch / Next / batchKey with their datastore writes (Put before the append, Delete of the head record) and their effect on the queue object = Queue.step_mem, for all queue contents, sequence numbers, bounds and batches (Load, a loop over a datastore query, is not translated)")],
     "C11": [("queue", "sequencers/single/queue.go AddBatch / Next / batchKey with their datastore writes (Put before the append, Delete of the head record) and their effect on the queue object = Queue.step_mem, for all queue contents, sequence numbers, bounds and batches (Load, a loop over a datastore query, is not translated)")],
-    "C16": [("da", "types.SubmitWithHelpers = Proxy.submit_helper on every path; types.RetrieveWithHelpers = Proxy.retrieve_helper on every path before the chunked Get loop")],
+    "C16": [("loop-chunks", "the chunked Get loop of types.RetrieveWithHelpers, translated shallowly into a Gallina Fixpoint, = Get over the chunks of Admission.chunks (100 ids each, last one shorter, none empty, in order, stop at the first error), by induction for ALL id lists"),
+            ("loop-filter", "the size filter loop of da/jsonrpc client SubmitWithOptions, translated shallowly, = Proxy.filter_loop (what is submitted is the model's longest fitting prefix; the oversize flag), by induction for ALL blob lists"),
+            ("da", "types.SubmitWithHelpers = Proxy.submit_helper on every path; types.RetrieveWithHelpers = Proxy.retrieve_helper on every path before the chunked Get loop")],
     "C17": [("lazy", "getRemainingSleep = Lazy.remaining")],
 }
 for _k, _groups in _GOLITE.items():
